@@ -970,32 +970,189 @@ Qed.
 
 (* one step: the simulated heat is split into an injected (<= 0) and a produced (>= 0) part, auxiliary heat fills the gap
    to the target, and the total supply meets the target *)
+Lemma sutra_scale_nonneg dt x : 0 < dt -> 0 <= x -> 0 <= x / dt / 1000.
+Proof.
+  intros Hd Hx. apply Qle_shift_div_l. reflexivity. rewrite Qmult_0_l. apply Qle_shift_div_l. exact Hd. lra.
+Qed.
+
+Lemma sutra_scale_mono dt x y : 0 < dt -> x <= y -> x / dt / 1000 <= y / dt / 1000.
+Proof.
+  intros Hd Hxy. pose proof (sutra_scale_nonneg dt (y - x) Hd ltac:(lra)) as H.
+  assert (E : (y - x) / dt / 1000 == y / dt / 1000 - x / dt / 1000) by (field; lra). lra.
+Qed.
+
 Theorem sutra_step dt target sim : 0 < dt ->
   sutra_injected dt sim + sutra_produced dt sim == sim / dt / 1000 /\
   sutra_total dt target sim == sutra_produced dt sim + sutra_aux dt target sim /\
   sutra_injected dt sim <= 0 /\ 0 <= sutra_produced dt sim /\ 0 <= sutra_aux dt target sim /\
   target / dt / 1000 <= sutra_total dt target sim /\
-  sutra_total dt target sim == Qmax (Qmax sim target) 0 / dt / 1000 + (if Qltb sim 0 then (- sim) / dt / 1000 else 0) * (if Qltb (target - sim) 0 then 0 else 1).
+  (0 <= sim -> sutra_total dt target sim == Qmax sim target / dt / 1000).
 Proof.
   intros Hd. unfold sutra_total, sutra_injected, sutra_produced, sutra_aux.
-  assert (Hk : forall x, 0 <= x -> 0 <= x / dt / 1000).
-  { intros x Hx. apply Qle_shift_div_l. reflexivity. rewrite Qmult_0_l. apply Qle_shift_div_l. exact Hd. lra. }
-  assert (Hm : forall x y, x <= y -> x / dt / 1000 <= y / dt / 1000).
-  { intros x y Hxy. assert (0 <= (y - x) / dt / 1000) by (apply Hk; lra).
-    assert (E : (y - x) / dt / 1000 == y / dt / 1000 - x / dt / 1000) by (field; lra). lra. }
-  destruct (Qltb_spec 0 sim) as [H1|H1]; destruct (Qltb_spec sim 0) as [H2|H2]; try lra;
-    destruct (Qltb_spec (target - sim) 0) as [H3|H3].
-  all: repeat split; try reflexivity; try (field; lra); try (apply Hk; lra);
-       try (assert (E0 : 0 / dt / 1000 == 0) by (field; lra); rewrite ?E0).
-  all: try lra.
-  all: try (assert (Ex := Hm sim 0 ltac:(lra)); assert (E0 : 0 / dt / 1000 == 0) by (field; lra); lra).
-  all: try (assert (Ex := Hm target sim ltac:(lra)); lra).
-  all: try (assert (Ex := Hm 0 (target - sim) ltac:(lra));
-            assert (E1 : (target - sim) / dt / 1000 == target / dt / 1000 - sim / dt / 1000) by (field; lra);
-            assert (E0 : 0 / dt / 1000 == 0) by (field; lra);
-            assert (Ey := Hm sim 0 ltac:(lra)); try lra).
-  all: try (rewrite Q.max_l by (apply Q.max_le_iff; left; lra); rewrite Q.max_l by lra; field; lra).
-  all: try (rewrite Q.max_l by (apply Q.max_le_iff; right; lra); rewrite Q.max_r by lra; field; lra).
-  all: try (rewrite (Q.max_r sim target) by lra; destruct (Qlt_le_dec target 0);
-            [rewrite Q.max_r by lra | rewrite Q.max_l by lra]; field; lra).
+  assert (E0 : 0 / dt / 1000 == 0) by (field; lra).
+  assert (Esub : (target - sim) / dt / 1000 == target / dt / 1000 - sim / dt / 1000) by (field; lra).
+  split; [|split; [reflexivity|split; [|split; [|split; [|split]]]]].
+  - destruct (Qltb_spec 0 sim); destruct (Qltb_spec sim 0); try lra; rewrite ?E0; try ring.
+    assert (sim == 0) by lra. assert (E : sim / dt / 1000 == 0) by (rewrite H; exact E0). lra.
+  - destruct (Qltb_spec 0 sim). lra. rewrite <- E0. apply sutra_scale_mono; lra.
+  - destruct (Qltb_spec sim 0). lra. apply sutra_scale_nonneg; lra.
+  - destruct (Qltb_spec (target - sim) 0). lra. apply sutra_scale_nonneg; lra.
+  - destruct (Qltb_spec sim 0) as [Hs|Hs]; destruct (Qltb_spec (target - sim) 0) as [Ht|Ht]; rewrite ?E0, ?Esub.
+    + pose proof (sutra_scale_mono dt target sim Hd ltac:(lra)). pose proof (sutra_scale_mono dt sim 0 Hd ltac:(lra)). lra.
+    + pose proof (sutra_scale_mono dt sim 0 Hd ltac:(lra)). lra.
+    + pose proof (sutra_scale_mono dt target sim Hd ltac:(lra)). lra.
+    + lra.
+  - intros Hs. destruct (Qltb_spec sim 0) as [H1|H1]; [lra|].
+    destruct (Qltb_spec (target - sim) 0) as [Ht|Ht].
+    + rewrite Q.max_l by lra. lra.
+    + rewrite Q.max_r by lra. rewrite Esub. ring.
+Qed.
+
+Lemma nth_skipn_Q : forall a (l : list Q) t, nth t (skipn a l) 0 = nth (a + t) l 0.
+Proof.
+  induction a as [|a IH]; intros l t. reflexivity.
+  destruct l as [|x l]. cbn. destruct t; reflexivity. cbn [skipn Nat.add nth]. apply IH.
+Qed.
+
+Lemma nth_firstn_Q : forall n (l : list Q) t, (t < n)%nat -> nth t (firstn n l) 0 = nth t l 0.
+Proof.
+  induction n as [|n IH]; intros l t H. lia.
+  destruct l as [|x l]. reflexivity. destruct t as [|t]. reflexivity. cbn [firstn nth]. apply IH. lia.
+Qed.
+
+Lemma slice_length a b (l : list Q) : length (slice a b l) = Nat.min (b - a) (length l - a).
+Proof. unfold slice. rewrite firstn_length, skipn_length. reflexivity. Qed.
+
+Lemma slice_nth a b (l : list Q) t : (t < b - a)%nat -> nth t (slice a b l) 0 = nth (a + t) l 0.
+Proof. intros H. unfold slice. rewrite nth_firstn_Q by exact H. apply nth_skipn_Q. Qed.
+
+Lemma sumQ_add_pointwise : forall C A B : list Q, length A = length C -> length B = length C ->
+  (forall t, (t < length C)%nat -> nth t C 0 == nth t A 0 + nth t B 0) -> sumQ C == sumQ A + sumQ B.
+Proof.
+  induction C as [|c C IH]; intros [|a A] [|b B] LA LB H; cbn in LA, LB; try lia. cbn. ring.
+  cbn [sumQ]. rewrite (IH A B) by (try lia; intros t Ht; apply (H (S t)); cbn; lia).
+  pose proof (H 0%nat ltac:(cbn; lia)) as H0. cbn in H0. rewrite H0. ring.
+Qed.
+
+Lemma sumQ_map_scale (f : Q -> Q) dt : ~ dt == 0 -> forall l,
+  sumQ (map (fun x => f x / dt / 1000) l) * dt / 1000 == sumQ (map f l) / 1000000.
+Proof.
+  intros Hd. induction l as [|x l IH]; cbn [map sumQ]. field.
+  assert (E : (f x / dt / 1000 + sumQ (map (fun x0 => f x0 / dt / 1000) l)) * dt / 1000 ==
+              f x / 1000000 + sumQ (map (fun x0 => f x0 / dt / 1000) l) * dt / 1000) by (field; exact Hd).
+  rewrite E, IH. field.
+Qed.
+
+Lemma slice_map (f : Q -> Q) a b l : slice a b (map f l) = map f (slice a b l).
+Proof. unfold slice. rewrite skipn_map, firstn_map. reflexivity. Qed.
+
+(* annual produced energy = sum over the year's 730 steps of max(simulated heat, 0), / 1e6: the time step cancels *)
+Theorem sutra_annual_produced dt sm i : ~ dt == 0 ->
+  sutra_annual dt (map (sutra_produced dt) sm) i ==
+  sumQ (map (fun s => if Qltb s 0 then 0 else s) (sutra_block sm i)) / 1000000.
+Proof.
+  intros Hd. unfold sutra_annual, sutra_block. rewrite sumQ_red_eq.
+  change (map (sutra_produced dt) sm) with (map (fun s => (if Qltb s 0 then 0 else s) / dt / 1000) sm).
+  rewrite slice_map. apply (sumQ_map_scale (fun s => if Qltb s 0 then 0 else s) dt Hd).
+Qed.
+
+(* annual total supply = annual produced + annual auxiliary, every year *)
+Theorem sutra_annual_total dt tg sm i : length tg = length sm ->
+  sutra_annual dt (map2 (sutra_total dt) tg sm) i ==
+  sutra_annual dt (map (sutra_produced dt) sm) i + sutra_annual dt (map2 (sutra_aux dt) tg sm) i.
+Proof.
+  intros L. unfold sutra_annual, sutra_block. rewrite !sumQ_red_eq.
+  set (a := (i * 730)%nat). set (b := ((i + 1) * 730)%nat).
+  rewrite (sumQ_add_pointwise (slice a b (map2 (sutra_total dt) tg sm))
+             (slice a b (map (sutra_produced dt) sm)) (slice a b (map2 (sutra_aux dt) tg sm))).
+  - field.
+  - rewrite !slice_length, map_length, map2_length. lia.
+  - rewrite !slice_length, !map2_length. lia.
+  - intros t Ht. rewrite slice_length, map2_length in Ht.
+    rewrite !slice_nth by lia.
+    rewrite !map2_nth by lia. rewrite nth_map_Q by lia. reflexivity.
+Qed.
+
+Theorem sutra_plant_spec time target sim pump o :
+  sutra_plant time target sim pump = Ok o ->
+  exists tv tg sm,
+    subsample time = Some tv /\ subsample target = Some tg /\ subsample sim = Some sm /\ length tg = length sm /\
+    s_dt o = sutra_dt tv /\ ~ s_dt o == 0 /\
+    s_inj o = map (sutra_injected (s_dt o)) sm /\ s_prod o = map (sutra_produced (s_dt o)) sm /\
+    s_aux o = map2 (sutra_aux (s_dt o)) tg sm /\ s_tot o = map2 (sutra_total (s_dt o)) tg sm /\
+    length (s_ann_tot o) = Z.to_nat (py_round (last tv 0 / 8766)) /\
+    forall i, (i < length (s_ann_tot o))%nat ->
+      nth i (s_ann_tot o) 0 == nth i (s_ann_prod o) 0 + nth i (s_ann_aux o) 0 /\
+      nth i (s_ann_prod o) 0 == sumQ (map (fun s => if Qltb s 0 then 0 else s) (sutra_block sm i)) / 1000000 /\
+      nth i (s_pumpkwh o) 0 == sumQ (sutra_block pump i) * s_dt o.
+Proof.
+  unfold sutra_plant.
+  destruct (subsample time) as [tv|]; [|discriminate]. destruct (subsample target) as [tg|]; [|discriminate].
+  destruct (subsample sim) as [sm|]; [|discriminate].
+  destruct (same_len tg sm) eqn:EL; cbn [negb]; [|discriminate]. apply same_len_true in EL.
+  destruct (Qeq_bool (sutra_dt tv) 0) eqn:Ed; [discriminate|].
+  destruct (list_max _) as [mx|]; [|discriminate].
+  intros E; inversion E; subst; clear E. cbn [s_dt s_inj s_prod s_aux s_tot s_ann_tot s_ann_prod s_ann_aux s_pumpkwh].
+  exists tv, tg, sm. repeat (split; [reflexivity|]). split. exact EL. split. reflexivity.
+  split. { intros H. apply Qeq_bool_iff in H. congruence. }
+  repeat (split; [reflexivity|]).
+  split. rewrite map_length, seq_length. reflexivity.
+  intros i Hi. rewrite map_length, seq_length in Hi.
+  set (dt := sutra_dt tv).
+  assert (Hn : forall ser, nth i (map (sutra_annual dt ser) (seq 0 (Z.to_nat (py_round (last tv 0 / 8766))))) 0 = sutra_annual dt ser i).
+  { intros ser. rewrite (nth_indep _ 0 (sutra_annual dt ser 0%nat)) by (rewrite map_length, seq_length; exact Hi).
+    rewrite (map_nth (sutra_annual dt ser)). rewrite seq_nth by exact Hi. reflexivity. }
+  rewrite !Hn. split. apply sutra_annual_total. exact EL.
+  split. apply sutra_annual_produced. intros H. apply Qeq_bool_iff in H. unfold dt in H. congruence.
+  rewrite (nth_indep _ 0 (sutra_pumping_kwh dt pump 0%nat)) by (rewrite map_length, seq_length; exact Hi).
+  rewrite (map_nth (sutra_pumping_kwh dt pump)). rewrite seq_nth by exact Hi. cbn [Nat.add].
+  unfold sutra_pumping_kwh. rewrite sumQ_red_eq. reflexivity.
+Qed.
+
+Theorem check_sutra_points_sound tol dt raw_target raw_sim inj prod aux tot :
+  check_sutra_points tol dt raw_target raw_sim inj prod aux tot = true ->
+  length inj = length (every_other raw_sim) /\
+  forall t, (t < length (every_other raw_sim))%nat ->
+    let sim := nth (2 * t) raw_sim 0 in
+    let target := nth (2 * t) raw_target 0 in
+    approx tol (sutra_injected dt sim) (nth t inj 0) /\ approx tol (sutra_produced dt sim) (nth t prod 0) /\
+    approx tol (sutra_aux dt target sim) (nth t aux 0) /\ approx tol (sutra_total dt target sim) (nth t tot 0).
+Proof.
+  unfold check_sutra_points. intros H.
+  apply andb_true_iff in H. destruct H as [H H5]. apply andb_true_iff in H. destruct H as [H H4].
+  apply andb_true_iff in H. destruct H as [H H3]. apply andb_true_iff in H. destruct H as [H1 H2].
+  apply same_len_true in H1.
+  apply all_close_sound in H2, H3, H4, H5.
+  destruct H2 as [L2 N2]. destruct H3 as [L3 N3]. destruct H4 as [L4 N4]. destruct H5 as [L5 N5].
+  rewrite map_length in L2, N2, L3, N3. rewrite map2_length in L4, N4, L5, N5.
+  split. lia. intros t Ht. cbn zeta. rewrite <- !every_other_nth.
+  specialize (N2 t Ht). specialize (N3 t Ht). specialize (N4 t ltac:(lia)). specialize (N5 t ltac:(lia)).
+  rewrite nth_map_Q in N2, N3 by exact Ht. rewrite map2_nth in N4, N5 by lia.
+  repeat split; assumption.
+Qed.
+
+Theorem check_sutra_year_sound tol dt inj prod aux tot pump annual :
+  check_sutra_year tol dt inj prod aux tot pump annual = true ->
+  length inj = 730%nat /\
+  approx tol (sumQ (firstn 730 inj) * dt / 1000) (nth 0 annual 0) /\
+  approx tol (sumQ (firstn 730 prod) * dt / 1000) (nth 1 annual 0) /\
+  approx tol (sumQ (firstn 730 aux) * dt / 1000) (nth 2 annual 0) /\
+  approx tol (sumQ (firstn 730 tot) * dt / 1000) (nth 3 annual 0) /\
+  approx tol (sumQ (firstn 730 pump) * dt) (nth 4 annual 0).
+Proof.
+  unfold check_sutra_year. intros H. apply andb_true_iff in H. destruct H as [Hl H]. apply Nat.eqb_eq in Hl.
+  apply all_close_sound in H. destruct H as [L N]. cbn [length] in L, N.
+  split. exact Hl.
+  assert (Hb : forall ser, sutra_annual dt ser 0 == sumQ (firstn 730 ser) * dt / 1000).
+  { intros ser. unfold sutra_annual, sutra_block, slice. cbn [Nat.mul Nat.add Nat.sub skipn]. rewrite sumQ_red_eq. reflexivity. }
+  assert (Hp : sutra_pumping_kwh dt pump 0 == sumQ (firstn 730 pump) * dt).
+  { unfold sutra_pumping_kwh, sutra_block, slice. cbn [Nat.mul Nat.add Nat.sub skipn]. rewrite sumQ_red_eq. reflexivity. }
+  pose proof (N 0%nat ltac:(lia)) as N0. pose proof (N 1%nat ltac:(lia)) as N1. pose proof (N 2%nat ltac:(lia)) as N2.
+  pose proof (N 3%nat ltac:(lia)) as N3. pose proof (N 4%nat ltac:(lia)) as N4. cbn [nth] in N0, N1, N2, N3, N4.
+  repeat split.
+  - eapply approx_eq; [apply Hb | reflexivity | exact N0].
+  - eapply approx_eq; [apply Hb | reflexivity | exact N1].
+  - eapply approx_eq; [apply Hb | reflexivity | exact N2].
+  - eapply approx_eq; [apply Hb | reflexivity | exact N3].
+  - eapply approx_eq; [apply Hp | reflexivity | exact N4].
 Qed.
